@@ -281,6 +281,8 @@ func main() {
 		cmdCoreFault(os.Args[2:])
 	case "cronconc":
 		cmdCronConc(os.Args[2:])
+	case "memconc":
+		cmdMemConc(os.Args[2:])
 	case "hookconc":
 		cmdHookConc(os.Args[2:])
 	case "pure":
